@@ -19,13 +19,19 @@ Ev == Traces[tid].events[l]
 (* JSON objects become records; the configuration is a record backend -> record *)
 CfgOf(t) == [b \in BackendIds |-> Traces[t].cfg[b]]
 
-PostMatches(e) ==
+(* What C11 talks about besides the lookup results: the with-stack and the imported modules.  A recorded post-state
+   that differs there is not a behaviour of the specification.  The registry's bookkeeping (initialised backends, lazy
+   factories, seen modules, memo) is internal: a difference there alone is reported as DRIFT (the specification no
+   longer mirrors the implementation's bookkeeping) but the trace goes on - the specification state is advanced by the
+   specification's own actions, so results stay predicted from the specification's state. *)
+PostObservable(e) ==
+  /\ reg'.stack = e.post.stack
+  /\ imported' = e.post.imported
+PostInternal(e) ==
   /\ reg'.backends = e.post.backends
   /\ \A m \in Mods : reg'.lazy[m] = e.post.lazy[m]
   /\ reg'.seen = SeqToSet(e.post.seen)
   /\ Range(reg'.memo) = {<<p[1], p[2]>> : p \in SeqToSet(e.post.memo)}
-  /\ reg'.stack = e.post.stack
-  /\ imported' = e.post.imported
 
 ResIs(e, r) == e.res.k = r.k /\ (IF r.k = "set" THEN SeqToSet(e.res.v) = r.v ELSE e.res.v = r.v)
 
@@ -58,7 +64,8 @@ TExit      == Ev.a = "Exit" /\ reg.stack # <<>> /\ reg.stack[Len(reg.stack)] = E
 TraceNext ==
   /\ Consume
   /\ (TRegister \/ TStartUse \/ TImport \/ TGet \/ TGetName \/ TGetObj \/ TRegByName \/ TRegByTens \/ TEnter \/ TExit)
-  /\ PostMatches(Ev)
+  /\ PostObservable(Ev)
+  /\ (PostInternal(Ev) \/ PrintT(<<"DRIFT", tid, l>>))
   /\ TLCSet(tid, l + 1)
 
 TraceSpec == TraceInit /\ [][TraceNext]_tvars
